@@ -200,6 +200,20 @@ pub fn check_graph(rep: &mut Report, drv: &mut Driver, g: &Graph, info: &TreeInf
         Ok(back) if back == jv => {}
         _ => rep.fail("direct", "C14 JSON text does not parse back to the serialised value", true, json!({"origin": origin, "source": src, "graph": gs.pretty(), "text": text})),
     }
+    // the file written by `display_json(Some(path))` — what `--output` produces — holds exactly that document, also when the
+    // destination exists already and is longer
+    {
+        let path = std::path::PathBuf::from(format!("/tmp/tsg-verif-c14-{}.json", std::process::id()));
+        let stale = format!("{{\"stale\": \"{}\"}}\n", "y".repeat(text.len() + 64));
+        let ok = std::fs::write(&path, &stale).is_ok() && g.display_json(Some(&path)).is_ok();
+        let written = std::fs::read_to_string(&path).unwrap_or_default();
+        let _ = std::fs::remove_file(&path);
+        match (ok, serde_json::from_str::<J>(&written)) {
+            (true, Ok(back)) if back == jv => rep.count("display-json-to-existing-file-checked"),
+            _ => rep.fail("direct", "C14 display_json into an existing (longer) file does not leave exactly the graph's JSON there", true,
+                json!({"origin": origin, "source": src, "graph": gs.pretty(), "file_tail": written.chars().rev().take(120).collect::<String>().chars().rev().collect::<String>()})),
+        }
+    }
     match decode_graph(&jv, info) {
         Some(dec) if dec == gs => {}
         other => rep.fail("direct", "C14 decoding the JSON does not reconstruct the in-memory graph", true,
